@@ -1053,4 +1053,18 @@ example : (rows.any fun r => r.name == "float-inf" && (match r.int1 with | .rais
 example : (rows.any fun r => floatOut r == .default) = true ∧ (rows.any fun r => intOut r == .default) = true ∧
     (rows.any fun r => intOut r == .value && r.int1 != .ok) = true := by decide +kernel
 
+/-! ### the filters are functions of their arguments: no memoising decorator on any worker -/
+
+open JinjaV.Gen.FilterWorkers in
+/-- over the functions READ from filters.py / utils.py as reachable from the C23 entries of `FILTERS` (regenerated every
+    run): every decorator is a call marker, none caches results by argument value -/
+theorem no_memoised_worker : ∀ w ∈ workers, ∀ d ∈ w.decorators, d ∈ allowedDecorators := by decide +kernel
+
+theorem suspectWorkers_nil : suspectWorkers = [] := by decide +kernel
+
+-- not vacuous: the table reaches `utils.url_quote` from `urlencode` and sees the decorators that do exist
+open JinjaV.Gen.FilterWorkers in
+example : (workers.any fun w => w.module == "utils" && w.name == "url_quote" && w.filters.contains "urlencode") = true ∧
+    (workers.any fun w => w.name == "do_truncate" && w.decorators == ["pass_environment"]) = true := by decide +kernel
+
 end JinjaV.C23
